@@ -14,6 +14,8 @@ def run(chk, repo, tier):
         sr.schedule_rules(chk, repo, q, rid_pal='C09.R1')
         sr.emit(chk, repo, q, {'canonical': 'C09.R2', 'loop-invariant': 'C09.R2', 'loop-entry': 'C09.R2'})
     chk.floor('C09.R1', 4, 4)
+    from . import support
+    support.krylov_rules(chk, repo, 'C09.K')
     chk.undecided += ['exactness on a complete manifold', 'the numerical size of the reversibility defect']
     return ('Symbolic schedule of both TDVP integrators extracted from the call sites (kind, position affine in the loop '
             'variable, coefficient of dt as a rational) and compared with its own reversal segment by segment; canonical-form '
